@@ -105,11 +105,12 @@ class ChainTable(Table):
         return r or None
 
 
-def one_chain(ctx, kinds, ir0, feat0, keep_default_sentence=False):
+def one_chain(ctx, kinds, ir0, feat0, keep_default_sentence=False, carry_internal=False):
     """keep_default_sentence: the docstring parsers run with their own default setting
     (emit_default_doc=True), so the IR prose they return still carries 'Defaults to X'."""
     chain_name = "->".join(kinds)
-    replay = {"ir": ir_jsonable(ir0), "feat": feat0, "kinds": list(kinds), "keep_default_sentence": keep_default_sentence}
+    replay = {"ir": ir_jsonable(ir0), "feat": feat0, "kinds": list(kinds), "keep_default_sentence": keep_default_sentence,
+              "carry_internal": carry_internal}
     OPTS = {k: (dict(v, parse_emit_default_doc=True) if keep_default_sentence and k in DOC_KINDS else v) for k, v in globals()["OPTS"].items()}
     cur, curfeat = ir_copy(ir0), feat0
     explained = set()
@@ -118,7 +119,7 @@ def one_chain(ctx, kinds, ir0, feat0, keep_default_sentence=False):
     lossy_ids = []  # finding ids of earlier hops (UNLISTED:* when a hop violated)
     for hop, kind in enumerate(kinds):
         base = case_base(HOP_OP[kind], kind, cur, curfeat, OPTS[kind])
-        base.update(chain=chain_name, hop=hop, chain_len=len(kinds), keep_default_sentence=keep_default_sentence)
+        base.update(chain=chain_name, hop=hop, chain_len=len(kinds), keep_default_sentence=keep_default_sentence, carry_internal=carry_internal)
         base["after_lossy_hop"] = bool(lossy_ids)
         base["earlier_hop_findings"] = sorted(set(lossy_ids))
         try:
@@ -141,7 +142,8 @@ def one_chain(ctx, kinds, ir0, feat0, keep_default_sentence=False):
             explained.add((d.get("param"), d["field"]))
             if d["field"] in ("param", "order", "summary", "return", "style") or str(d.get("tag", "")).startswith("foreign"):
                 cascade = True
-        nxt.pop("_internal", None)
+        if not carry_internal:
+            nxt.pop("_internal", None)
         cur, curfeat = nxt, feat_from_ir(nxt)
     ctx.event("chains_completed")
     ctx.event("chains_len{}".format(len(kinds)))
@@ -195,7 +197,11 @@ def run(ctx):
             seen_chains.add(kinds)
             keep = rep % 2 == 1 and any(k in DOC_KINDS for k in kinds)
             ctx.feature("docstring_parser_keeps_default_sentence" if keep else "default_sentence_stripped")
-            one_chain(ctx, kinds, ir, feat, keep)
+            # the description is handed from hop to hop exactly as the parser returned it (with whatever
+            # it carries besides the interface) on two of three repetitions, stripped to the interface on the third
+            carry = rep % 3 != 2
+            ctx.feature("description_handed_on_as_parsed" if carry else "description_stripped_to_interface")
+            one_chain(ctx, kinds, ir, feat, keep, carry)
     ctx.note("distinct_chains_executed", len(seen_chains))
     ctx.note("exhaustive", len(seen_chains) == 252)
 
@@ -206,5 +212,5 @@ def replay(payload):
     rp = payload["replay"]
     ctx = Ctx(PROPERTY, "quick", 0)
     ctx.case(("replay",))
-    one_chain(ctx, tuple(rp["kinds"]), ir_from_jsonable(rp["ir"]), rp["feat"], rp.get("keep_default_sentence", False))
+    one_chain(ctx, tuple(rp["kinds"]), ir_from_jsonable(rp["ir"]), rp["feat"], rp.get("keep_default_sentence", False), rp.get("carry_internal", False))
     return ctx
